@@ -1595,6 +1595,12 @@ impl Connection {
         // Respond to all pending requests with the error
         let response_handlers: HashMap<i16, ResponseHandler> =
             handler_map.into_inner().unwrap().into_handlers();
+        #[cfg(scylla_verif)]
+        crate::verif::trace::emit(
+            "router",
+            "RouterBreak",
+            &[("handlers", response_handlers.len() as i64)],
+        );
 
         for (_, handler) in response_handlers {
             // Ignore sending error, request was dropped
@@ -1645,6 +1651,8 @@ impl Connection {
                 let mut handler_map_guard = handler_map.try_lock().unwrap();
                 handler_map_guard.lookup(params.stream)
             };
+            #[cfg(scylla_verif)]
+            verif_hooks::emit_lookup(params.stream, &handler_lookup_res);
 
             use HandlerLookupResult::*;
             match handler_lookup_res {
@@ -1777,6 +1785,8 @@ impl Connection {
                     );
                     let mut handler_map_guard = handler_map.try_lock().unwrap(); // Same as above
                     handler_map_guard.orphan(request_id);
+                    #[cfg(scylla_verif)]
+                    crate::verif::trace::emit("router", "Orphan", &[("req", request_id as i64)]);
                 }
                 else => { break }
             }
@@ -2361,11 +2371,25 @@ impl ResponseHandlerMap {
         if let Some(stream_id) = self.stream_set.allocate() {
             self.request_to_stream
                 .insert(response_handler.request_id, stream_id);
+            #[cfg(scylla_verif)]
+            let verif_request_id = response_handler.request_id;
             let prev_handler = self.handlers.insert(stream_id, response_handler);
             assert!(prev_handler.is_none());
 
+            #[cfg(scylla_verif)]
+            crate::verif::trace::emit(
+                "router",
+                "Alloc",
+                &[("req", verif_request_id as i64), ("stream", stream_id as i64)],
+            );
             Ok(stream_id)
         } else {
+            #[cfg(scylla_verif)]
+            crate::verif::trace::emit(
+                "router",
+                "AllocFail",
+                &[("req", response_handler.request_id as i64)],
+            );
             Err(response_handler)
         }
     }
@@ -2507,6 +2531,182 @@ impl VerifiedKeyspaceName {
         }
 
         Ok(())
+    }
+}
+
+/// Verification harness: drives the real `ResponseHandlerMap` and the real `Connection::router`
+/// (over any in-memory stream) without a `Connection`/`Session`. The wrappers call the real code.
+#[cfg(scylla_verif)]
+#[allow(missing_docs, unreachable_pub, unnameable_types)]
+pub mod verif_hooks {
+    use super::*;
+    use crate::frame::frame_errors::CqlRequestSerializationError;
+    use crate::frame::request::RequestOpcode;
+
+    pub(super) fn emit_lookup(stream: i16, res: &HandlerLookupResult) {
+        let (kind, req) = match res {
+            HandlerLookupResult::Handler(h) => (0, h.request_id as i64),
+            HandlerLookupResult::Orphaned => (1, -1),
+            HandlerLookupResult::Missing => (2, -1),
+        };
+        crate::verif::trace::emit(
+            "router",
+            "Lookup",
+            &[("stream", stream as i64), ("res", kind), ("req", req)],
+        );
+    }
+
+    #[derive(Debug, Clone, Copy, PartialEq, Eq)]
+    pub enum Lookup {
+        Handler(u64),
+        Orphaned,
+        Missing,
+    }
+
+    /// The real stream-id / handler bookkeeping with opaque handler tokens.
+    pub struct HandlerMapProbe {
+        map: ResponseHandlerMap,
+    }
+
+    impl Default for HandlerMapProbe {
+        fn default() -> Self {
+            Self::new()
+        }
+    }
+
+    impl HandlerMapProbe {
+        pub fn new() -> Self {
+            Self {
+                map: ResponseHandlerMap::new(),
+            }
+        }
+        pub fn allocate(&mut self, request_id: u64) -> Result<i16, ()> {
+            let (response_sender, _receiver) = oneshot::channel();
+            self.map
+                .allocate(ResponseHandler {
+                    response_sender,
+                    request_id,
+                })
+                .map_err(|_| ())
+        }
+        pub fn orphan(&mut self, request_id: u64) {
+            self.map.orphan(request_id)
+        }
+        pub fn lookup(&mut self, stream: i16) -> Lookup {
+            match self.map.lookup(stream) {
+                HandlerLookupResult::Handler(h) => Lookup::Handler(h.request_id),
+                HandlerLookupResult::Orphaned => Lookup::Orphaned,
+                HandlerLookupResult::Missing => Lookup::Missing,
+            }
+        }
+        pub fn old_orphans_count(&self) -> usize {
+            self.map.old_orphans_count()
+        }
+        pub fn into_handlers(self) -> Vec<(i16, u64)> {
+            self.map
+                .into_handlers()
+                .into_iter()
+                .map(|(s, h)| (s, h.request_id))
+                .collect()
+        }
+    }
+
+    /// A request with an arbitrary body, sent with the QUERY opcode.
+    struct RawRequest<'a>(&'a [u8]);
+    impl SerializableRequest for RawRequest<'_> {
+        const OPCODE: RequestOpcode = RequestOpcode::Query;
+        fn serialize(&self, buf: &mut Vec<u8>) -> Result<(), CqlRequestSerializationError> {
+            buf.extend_from_slice(self.0);
+            Ok(())
+        }
+    }
+
+    pub struct RawResponse {
+        pub stream: i16,
+        pub opcode: u8,
+        pub body: Bytes,
+    }
+
+    /// The real router (reader, writer, orphaner, keepaliver) running over `stream`.
+    pub struct VRouter {
+        handle: Arc<RouterHandle>,
+        _worker: RemoteHandle<()>,
+        pub error_receiver: Option<ErrorReceiver>,
+    }
+
+    /// Must be called from within a tokio runtime (the router is spawned as a task).
+    pub fn spawn_router(
+        stream: impl AsyncRead + AsyncWrite + Send + 'static,
+        keepalive_interval: Option<Duration>,
+        keepalive_timeout: Option<Duration>,
+        write_coalescing: bool,
+    ) -> VRouter {
+        let cfg = verif_connection_config();
+        let config = HostConnectionConfig {
+            local_ip_address: cfg.local_ip_address,
+            shard_aware_local_port_range: cfg.shard_aware_local_port_range,
+            compression: None,
+            tcp_socket_options: cfg.tcp_socket_options,
+            timestamp_generator: None,
+            tls_config: None,
+            connect_timeout: cfg.connect_timeout,
+            event_sender: None,
+            default_consistency: cfg.default_consistency,
+            authenticator: None,
+            address_translator: None,
+            write_coalescing_delay: if write_coalescing {
+                Some(WriteCoalescingDelay::SmallNondeterministic)
+            } else {
+                None
+            },
+            keepalive_interval,
+            keepalive_timeout,
+            tablet_sender: None,
+            identity: cfg.identity,
+        };
+        let (sender, receiver) = mpsc::channel(1024);
+        let (error_sender, error_receiver) = tokio::sync::oneshot::channel();
+        let (orphan_notification_sender, orphan_notification_receiver) = mpsc::unbounded_channel();
+        let handle = Arc::new(RouterHandle {
+            submit_channel: sender,
+            request_id_generator: AtomicU64::new(0),
+            orphan_notification_sender,
+            keepalive_hint: Notify::new(),
+        });
+        let node_address: SocketAddr = "127.0.0.1:9042".parse().unwrap();
+        let (task, worker) = Connection::router(
+            config,
+            stream,
+            receiver,
+            error_sender,
+            orphan_notification_receiver,
+            handle.clone(),
+            node_address,
+        )
+        .remote_handle();
+        tokio::task::spawn(task);
+        VRouter {
+            handle,
+            _worker: worker,
+            error_receiver: Some(error_receiver),
+        }
+    }
+
+    impl VRouter {
+        /// `RouterHandle::send_request` with a raw body; `Err` carries the error's Debug text.
+        pub async fn send_raw(&self, body: &[u8]) -> Result<RawResponse, String> {
+            match self.handle.send_request(&RawRequest(body), None, false).await {
+                Ok(r) => Ok(RawResponse {
+                    stream: r.params.stream,
+                    opcode: r.opcode as u8,
+                    body: r.body,
+                }),
+                Err(e) => Err(format!("{:?}", e)),
+            }
+        }
+        pub fn trigger_keepalive(&self) {
+            self.handle.keepalive_hint.notify_one();
+        }
     }
 }
 
